@@ -45,10 +45,11 @@ def gram_statements(seed, n, starts=('select', 'select', 'union', 'insert', 'upd
 
 
 class Workload:
-    def __init__(self, ctx, n_templates, n_mut, n_soup, n_noise=True, dialects=DIALECTS, max_nest=40, n_lexeme=0, n_gram=0, lexeme_extra=False, n_runs=0):
+    def __init__(self, ctx, n_templates, n_mut, n_soup, n_noise=True, dialects=DIALECTS, max_nest=40, n_lexeme=0, n_gram=0, lexeme_extra=False, n_runs=0, short_names=False):
         self.lexeme_extra = lexeme_extra
         self.n_runs = n_runs
         self.n_lexeme = n_lexeme
+        self.short_names = short_names
         self.n_gram = n_gram
         self.ctx = ctx
         self.n_templates = n_templates
@@ -149,6 +150,17 @@ class Workload:
                     else:
                         yield idx, 'lexeme', d, t
                 idx += 1
+
+        # class 6a: every name of one or two characters over the hostile alphabet (digits, $, _, blank, dash, dot, non-ASCII) in every
+        # position and every dialect - a full grid, so that no (name, position, dialect) coincidence is left to the sampling above
+        if self.n_lexeme and self.short_names:
+            alpha = ['a', 'B', '1', '0', '$', '_', ' ', '-', '.', 'é']
+            for x in alpha + [a + b for a in alpha for b in alpha]:
+                for pos in sqlgen.IDENT_POSITIONS:
+                    for d in self.dialects:
+                        if ctx.mine(idx):
+                            yield idx, 'lexeme-grid', d, pos.format(x=x)
+                        idx += 1
 
         # class 6b: names made of separators only, in every position, in both quotings
         if self.n_lexeme and self.lexeme_extra:
